@@ -322,10 +322,10 @@ class Check:
         return code
 
 
-def quick_selftest(prog, seed, n, kinds=None):
+def quick_selftest(prog, seed, n, kinds=None, profile='dev'):
     from .selftest import run_selftest
     t = time.time()
-    ns, nl, mism, incon, st, joined = run_selftest(prog, seed, n, kinds=kinds)
+    ns, nl, mism, incon, st, joined = run_selftest(prog, seed, n, kinds=kinds, profile=profile)
     res = {'scripts': ns, 'lines': nl, 'mismatches': len(mism), 'inconclusive': len(incon), 'seconds': round(time.time() - t, 1)}
     if mism:
         res['first'] = [str(x) for x in mism[0]]
